@@ -554,6 +554,27 @@ class EffectDomain(DefaultDomain):
         if not (isinstance(cur, tuple) and cur[:1] == ("kwdict",)) or f.attr not in ("get", "pop", "popitem", "clear", "setdefault", "items", "keys", "values", "copy", "update"):
             return None
         out = []
+        if f.attr == "update" and call.keywords and all(k.arg is not None for k in call.keywords) and len(call.args) <= 1 and cur[2:] != ("counter",):
+            # d.update([mapping], name=value, ...)
+            for r in interp.eval_list(list(call.args) + [k.value for k in call.keywords], st, fr):
+                if r.kind == "exc":
+                    out.append(r)
+                    continue
+                cur = r.state.get(key)
+                more = []
+                if call.args:
+                    if not (isinstance(r.value[0], tuple) and r.value[0][:1] == ("kwdict",)):
+                        out.append(val(NONE, r.state.set(key, TOP)))
+                        continue
+                    more.extend(r.value[0][1])
+                more.extend((k.arg, v) for k, v in zip(call.keywords, r.value[len(call.args):]))
+                merged, order = dict(cur[1]), [k for k, _ in cur[1]]
+                for k, v in more:
+                    if k not in merged:
+                        order.append(k)
+                    merged[k] = v
+                out.append(val(NONE, r.state.set(key, ("kwdict", tuple((k, merged[k]) for k in order)) + cur[2:])))
+            return out
         for r in interp.eval_list(list(call.args), st, fr):
             if r.kind == "exc":
                 out.append(r)
@@ -1221,6 +1242,54 @@ class EffectDomain(DefaultDomain):
                     else:
                         vals_.append(v)
                 out.append(val(("lazymap", vals_[0], vals_[1]) if len(vals_) == 2 else TOP, r.state))
+            return out
+        if d == "dict.fromkeys" and 1 <= len(call.args) <= 2 and not call.keywords:
+            out = []
+            for r in interp._forced_list(interp.eval_list(list(call.args), st, fr), fr) if hasattr(interp, "_forced_list") else interp.eval_list(list(call.args), st, fr):
+                if r.kind == "exc":
+                    out.append(r)
+                    continue
+                els = interp._exact_elements(r.value[0])
+                keys = [self._dkey(x) for x in els] if els is not None else None
+                if keys is None or not all(ok for ok, _ in keys):
+                    out.append(val(TOP, r.state))
+                    continue
+                fill = r.value[1] if len(r.value) > 1 else NONE
+                items = []
+                for _, k_ in keys:
+                    if all(k_ != k0 for k0, _ in items):
+                        items.append((k_, fill))
+                out.append(val(("kwdict", tuple(items)), r.state))
+            return out
+        if d == "dict" and len(call.args) == 1 and not isinstance(call.args[0], ast.Starred):
+            # dict(mapping, **more) / dict(pairs, **more)
+            out = []
+            for r in interp.eval_list([call.args[0]] + [k.value for k in call.keywords], st, fr):
+                if r.kind == "exc":
+                    out.append(r)
+                    continue
+                base = r.value[0]
+                items = None
+                if isinstance(base, tuple) and base[:1] == ("kwdict",):
+                    items = list(base[1])
+                else:
+                    els = interp._exact_elements(base)
+                    pairs = [interp._exact_elements(x) for x in els] if els is not None else None
+                    if pairs is not None and all(p_ is not None and len(p_) == 2 and self._dkey(p_[0])[0] for p_ in pairs):
+                        items = []
+                        for k_, v_ in ((self._dkey(p_[0])[1], p_[1]) for p_ in pairs):
+                            items = [(k0, v0) for k0, v0 in items if k0 != k_] + [(k_, v_)]
+                for k, v in zip(call.keywords, r.value[1:]):
+                    if items is None:
+                        break
+                    if k.arg is None and isinstance(v, tuple) and v[:1] == ("kwdict",):
+                        for k_, v_ in v[1]:
+                            items = [(k0, v0) for k0, v0 in items if k0 != k_] + [(k_, v_)]
+                    elif k.arg is None:
+                        items = None
+                    else:
+                        items = [(k0, v0) for k0, v0 in items if k0 != k.arg] + [(k.arg, v)]
+                out.append(val(("kwdict", tuple(items)) if items is not None else TOP, r.state))
             return out
         if d == "dict" and not call.args:
             out = []
